@@ -203,6 +203,19 @@ UNITS += [dict(u, replay=dict(src='c17_await_before_get_promise.cpp', mode='earl
 UNITS += drive('drive_exc', 1, [[CC, CC, SU, RE, DD], [DD, RE]], ['quick', 'thorough'], extra_drv=['drv_resolve_exc'])
 UNITS += drive('drive_all_ctor', 1, [x for x in exhaustive(4) if tuple(x) not in _q], ['thorough'])
 
+# "every awaiter of any copy is resumed exactly once" rests on the awaiter-chain protocol of the underlying future (C02): the units that
+# put awaiter::subscribe_check_ready / co_await suspend / blocking sync under contract are re-run here, so that a change of that protocol
+# is reported under C17 as well.
+import importlib.util as _ilu17, os as _os17, copy as _copy17
+def _c02_17(names):
+    s = _ilu17.spec_from_file_location('c17_c02', _os17.path.join(_os17.path.dirname(_os17.path.dirname(_os17.path.abspath(__file__))), 'C02', 'units.py')); m = _ilu17.module_from_spec(s); s.loader.exec_module(m)
+    out = []
+    for x in m.UNITS:
+        if x['name'] in names:
+            v = _copy17.deepcopy(x); v['name'] = 'C02_' + x['name']; out.append(v)
+    return out
+UNITS += _c02_17(['subscribe_check_ready', 'co_await_suspend', 'co_sync', 'resume_chain_set_ready'])
+
 META = dict(
     level='proof',
     level_text=('Every member of shared_future<int> named by the property (default constructor, the two function-taking constructors, init_if_needed, get_promise, operator<<, ready, value, '
